@@ -169,6 +169,8 @@ type c14out struct {
 	Err   string
 }
 
+var c14Uniq atomic.Uint64
+
 var c14Build = rapid.Custom(func(rt *rapid.T) builtMsg { return buildMessage(rt, nil) })
 var c14Switch = rapid.Custom(func(rt *rapid.T) gen.SwitchMsg {
 	g := gen.New(rt, 1500)
@@ -216,8 +218,19 @@ func c14Program(kind int, seed int) (o c14out) {
 	case 2: // registry lookups + generic builder + ct_state builder + packet decode
 		sm := c14Switch.Example(seed)
 		var parts [][]byte
-		for i, name := range []string{"NXM_NX_REG3", "OXM_OF_ETH_DST", "NXM_NX_CT_LABEL", "nxm_nx_tun_id"} {
-			f, err := of.FindFieldHeaderByName(name, (seed+i)%2 == 0)
+		for i, name := range []string{"NXM_NX_REG3", "OXM_OF_ETH_DST", "NXM_NX_CT_LABEL", "nxm_nx_tun_id", "NXM_NX_TUN_IPV6_DST", "OXM_OF_IPV6_ND_TARGET"} {
+			// case pattern from the seed: spellings nobody has looked up before keep turning up in the concurrent phase
+			sp := []byte(name)
+			for bi := range sp {
+				if (seed>>(uint(bi+i)%29))&1 == 1 {
+					if sp[bi] >= 'A' && sp[bi] <= 'Z' {
+						sp[bi] += 32
+					} else if sp[bi] >= 'a' && sp[bi] <= 'z' {
+						sp[bi] -= 32
+					}
+				}
+			}
+			f, err := of.FindFieldHeaderByName(string(sp), (seed+i)%2 == 0)
 			if err != nil {
 				o.Err = err.Error()
 				return
@@ -247,9 +260,25 @@ func c14Program(kind int, seed int) (o c14out) {
 			}
 		}
 		o.Bytes = bytes.Join(parts, nil)
+	case 3: // DHCP: a short read (fixed part only) followed by a full read of another message, as a caller peeking at the header does
+		m1, m2 := c14DHCP.Example(seed), c14DHCP.Example(seed+1)
+		short := make([]byte, 240)
+		n1, _ := m1.Val.Read(short)
+		full := make([]byte, len(m2.Wire)+512)
+		n2, err := m2.Val.Read(full)
+		if err != nil {
+			o.Err = err.Error()
+		}
+		o.Bytes = append(append([]byte{}, short[:n1]...), full[:n2]...)
+		d := new(protocol.DHCP)
+		if _, err := d.Write(append([]byte{}, m2.Wire...)); err == nil {
+			o.Dump = obs.Dump(d, obs.Opts{ExportedOnly: true, Normalise: true, SkipFields: map[string]bool{"DHCP.Options": true}})
+		}
 	}
 	return
 }
+
+var c14DHCP = rapid.Custom(func(rt *rapid.T) gen.DHCPMsg { return gen.New(rt, 600).DHCP() })
 
 func TestC14Batch(t *testing.T) {
 	c := ev.For("C14")
@@ -264,7 +293,7 @@ func TestC14Batch(t *testing.T) {
 		var script []string
 		for gi := range progs {
 			for j := 0; j < per; j++ {
-				p := prog{gen.Pick(rt, "kind", 3), rapid.IntRange(1, 1<<30).Draw(rt, "seed")}
+				p := prog{gen.Pick(rt, "kind", 4), rapid.IntRange(1, 1<<30).Draw(rt, "seed")}
 				progs[gi] = append(progs[gi], p)
 				script = append(script, fmt.Sprintf("g%d:%d/%d", gi, p.kind, p.seed))
 			}
@@ -290,6 +319,7 @@ func TestC14Batch(t *testing.T) {
 		defer runtime.GOMAXPROCS(runtime.NumCPU())
 		got := make([][]c14out, g)
 		var running, maxRunning atomic.Int32
+		var lookupBad atomic.Int32
 		start := make(chan struct{})
 		var wg sync.WaitGroup
 		for gi := 0; gi < g; gi++ {
@@ -304,7 +334,22 @@ func TestC14Batch(t *testing.T) {
 						break
 					}
 				}
-				for _, p := range progs[gi] {
+				for pi, p := range progs[gi] {
+					// a registry lookup in a spelling that no one has used before (the registry must stay read-only
+					// whatever the spelling), checked against the sequentially obtained header
+					u := c14Uniq.Add(1)
+					name := []byte("nxm_nx_reg7")
+					if (gi+pi)%2 == 1 {
+						name = []byte("oxm_of_ipv6_nd_target")
+					}
+					for bi := range name {
+						if (u>>uint(bi%31))&1 == 1 && name[bi] >= 'a' && name[bi] <= 'z' {
+							name[bi] -= 32
+						}
+					}
+					if f, err := of.FindFieldHeaderByName(string(name), false); err != nil || f.Length == 0 || f.HasMask {
+						lookupBad.Add(1)
+					}
 					got[gi] = append(got[gi], c14Program(p.kind, p.seed))
 					runtime.Gosched()
 				}
@@ -322,6 +367,10 @@ func TestC14Batch(t *testing.T) {
 		}
 		c.Eval()
 		c.Label(fmt.Sprintf("batch_G=%d", g))
+		if lookupBad.Load() > 0 {
+			c.Report(rt, "C14|batch|cross-talk|registry-lookup", fmt.Sprintf("%d concurrent registry lookups in fresh spellings failed or returned a wrong header; script %v", lookupBad.Load(), script), script)
+			return
+		}
 		for gi := range progs {
 			for j, p := range progs[gi] {
 				a, b := ref[gi][j], got[gi][j]
